@@ -154,12 +154,44 @@ def numpy_models():
         return math.atan2(a, b)
     out['ext:numpy.arctan2'] = arctan2
 
+    def wrap64(v):
+        return (v + 2 ** 63) % 2 ** 64 - 2 ** 63
+
     def power(interp, a, b):
         if isinstance(a, Rec) or isinstance(b, Rec):
             return interp._binop(ast.Pow(), a, b)      # object arrays: the class's own **
-        return a ** b
+        if any(not isinstance(v, (int, float)) for v in (a, b)):
+            raise Unmodelled('numpy.power on non-numbers')
+        if all(isinstance(v, int) for v in (a, b)):     # bool counts as an integer type here too
+            if any(abs(int(v)) >= 2 ** 63 for v in (a, b)):
+                raise Unmodelled('numpy.power on integers beyond int64')
+            if b < 0:
+                raise ExcRaised(Ref('builtin:ValueError'))      # "Integers to negative integer powers are not allowed."
+            return wrap64(int(a) ** int(b))                      # int64 arithmetic wraps silently
+        try:
+            res = float(a) ** float(b)
+        except OverflowError:
+            return float('inf')
+        except ZeroDivisionError:
+            return float('inf')
+        return float('nan') if isinstance(res, complex) else res
     power.wants_interp = True
     out['ext:numpy.power'] = power
+
+    def np_sum(seq, *rest, **kw):
+        if rest or kw:
+            raise Unmodelled('numpy.sum with further arguments')
+        items = list(seq)
+        if any(isinstance(v, Rec) for v in items):
+            raise Unmodelled('numpy.sum over objects')
+        if any(not isinstance(v, (int, float)) for v in items):
+            raise Unmodelled('numpy.sum over non-numbers')
+        if all(isinstance(v, int) for v in items):
+            if any(abs(int(v)) >= 2 ** 63 for v in items):
+                return sum(items)           # object array: exact Python integers
+            return wrap64(sum(int(v) for v in items))
+        return float(sum(float(v) for v in items))
+    out['ext:numpy.sum'] = np_sum
     return out
 
 
